@@ -143,6 +143,30 @@ func runC15(c *Ctx) {
 		}
 	}
 	checkSep(m, "internal/counter", "IsStackCounter", "test")
+	// IsStackCounter is exactly "the name contains a newline": the result is the containment
+	// call itself, or an index compared so that position 0 counts as found
+	{
+		isc := m.Func("internal/counter", "IsStackCounter")
+		for _, ex := range exitPaths(isc) {
+			v := strip(ex.vals[0])
+			okRes, got := false, describe(v)
+			switch x := v.(type) {
+			case *ssa.Call:
+				n := calleeName(&x.Call)
+				okRes = n == "strings.Contains" || n == "strings.ContainsRune"
+			case *ssa.BinOp:
+				var idx ssa.Value = x.X
+				k, isC := intConst(x.Y)
+				if cl, ok := strip(idx).(*ssa.Call); ok && isC && strings.HasPrefix(calleeName(&cl.Call), "strings.Index") {
+					okRes = (x.Op == token.GEQ && k == 0) || (x.Op == token.GTR && k == -1) || (x.Op == token.NEQ && k == -1)
+				}
+			case *ssa.Const:
+				okRes = false
+			}
+			r.Check("C15.separator-agreement", "IsStackCounter/true exactly when the name contains a newline", m.Pos(ex.ret.Pos()), okRes,
+				"a newline at index 0 (an empty counter prefix) counts: Contains(name, \"\\n\") or Index… >= 0; got "+shortDesc(got))
+		}
+	}
 	checkSep(m, "internal/counter", "DecodeStack", "test", "split", "join")
 	checkSep(m, "internal/counter", "EncodeStack", "join")
 	checkSep(m, "internal/upload", "uploader.createReport", "split")
